@@ -8,9 +8,32 @@ props = json.load(open(os.path.join(ROOT, 'theorems.json')))
 ids = [json.loads(l)['id'] for l in open(os.path.join(ROOT, 'properties.jsonl'))]
 
 TEXT = {
-    'C05': ('Lean 4 theorems about the WindowManager that is regenerated from windows.py on every run: ledger invariant by induction '
+    'C03': ('Lean 4 theorems: local_flow_control_window is the minimum of the two windows, one byte more is refused atomically '
+            'with FlowControlError, a send that fits takes exactly its flow-controlled length (padding included) off both '
+            'windows, the regenerated guard_increment_window applies a WINDOW_UPDATE exactly or refuses it past 2^31-1, and - '
+            'along every history of public calls and received bytes (C03_conn_window_every_history) - the connection\'s '
+            'outbound window stays within 0 .. 2^31-1: what was sent was covered by the initial 65535 octets plus the peer\'s '
+            'WINDOW_UPDATE frames. The per-stream half of the every-history statement is decided by the oracle\'s own ledger '
+            'on real traces and by the correspondence check.', 'DESIGN.md section 0 (0.1, 0.7) and section 7 C03'),
+    'C27': ('Lean 4 theorems: in every state reachable by any public calls and any received bytes, connection errors included '
+            '(C27_bounded_every_history), the memory of closed streams holds at most MAX_CLOSED_STREAMS entries and the backlog of '
+            'a header block under assembly at most CONTINUATION_BACKLOG frames (the proof attempt found defect D49, repaired); '
+            'PRIORITY / WINDOW_UPDATE / RST_STREAM / PING / ALTSVC / unknown frames leave the stream table and the closed-stream '
+            'memory exactly as they were; an oversized header list is refused with ENHANCE_YOUR_CALM under the acknowledged '
+            'limit. Sizes of the live stream table between cleanups are decided by the oracle on long generated frame '
+            'sequences.', 'DESIGN.md section 0 (0.3 D49, 0.7) and section 7 C27'),
+    'C12': ('Lean 4 theorems over all of Z x Z about _validate_setting and guard_increment_window (regenerated from the source '
+            'and proved equal to the reference definitions on every run): the verdict is the RFC\'s for every identifier and '
+            'value, accepted values are stored and rejected ones raise InvalidSettingsValueError with the mandated code and '
+            'store nothing, for received frames and for update_settings; and in every reachable state every stored value, '
+            'in force or pending, local or remote, is one _validate_setting accepts '
+            '(C12_stored_settings_valid_every_history).', 'DESIGN.md section 0 and section 7 C12'),
+    'C05': ('Lean 4 theorems about WindowManager (regenerated from windows.py on every run and proved equal to the reference '
+            'definitions the theorems use): ledger invariant by induction '
             'over all histories (no over-credit, window <= max = acknowledged INITIAL_WINDOW_SIZE <= 2^31-1), no stall after an '
             'acknowledgement (partial: the stall after a negative settings delta is proved to exist and is a known finding); '
+            'for the connection-level window additionally, with nothing assumed of the application, current <= max <= 2^31-1 '
+            'in every reachable state of the whole connection (C05_conn_window_every_history); '
             'correspondence of the whole connection model with the real library on generated programs with the application '
             'acknowledging every byte.', 'DESIGN.md section 0 and section 7 C05'),
     'C29': ('Lean 4 theorems: in every state reachable from a fresh connection by public calls with well-typed arguments and by '
@@ -41,7 +64,9 @@ TEXT = {
             'DESIGN.md section 0 and section 7 C01'),
 }
 DEFAULT_NOTE = ('Trusted: Lean kernel; axioms propext/Classical.choice/Quot.sound only (audited each run); the translators for the '
-                'regenerated parts; the differential harness for the hand-modelled parts of connection.py/stream.py/utilities.py/'
+                'regenerated parts (tables directly; windows.py, _validate_setting, guard_increment_window through bridge theorems '
+                'that prove the regenerated functions equal to the reference definitions, with a rebuild against the regenerated '
+                'text when one fails); the differential harness for the hand-modelled parts of connection.py/stream.py/utilities.py/'
                 'frame_buffer.py/settings.py; hyperframe/hpack/CPython behaviour mirrored in the model; HPACK is an abstract oracle.')
 
 checks = []
